@@ -68,6 +68,12 @@ func Walk(ctx context.Context, fileSystem fs.FS, prefix, delimiter, marker strin
 		}
 	}
 
+	// a prefix whose directory part is no path (an empty, "." or ".."
+	// element) is the prefix of no key
+	if !fs.ValidPath(root) {
+		return WalkResults{}, nil
+	}
+
 	// a prefix that leads below a bookkeeping directory names nothing that
 	// is listed
 	for _, sd := range skipdirs {
